@@ -202,11 +202,11 @@ def draw(cdf, size=None):
         rs = np.random.random(size)
         out = np.empty(size, dtype=np.int_)
         for i in range(size):
-            out[i] = searchsorted(cdf, rs[i])
+            out[i] = searchsorted(cdf, rs[i] * cdf[-1])
         return out
     else:
         r = np.random.random()
-        return searchsorted(cdf, r)
+        return searchsorted(cdf, r * cdf[-1])
 
 
 # Overload for the `draw` function
@@ -217,10 +217,10 @@ def ol_draw(cdf, size=None):
             rs = np.random.random(size)
             out = np.empty(size, dtype=np.int_)
             for i in range(size):
-                out[i] = searchsorted(cdf, rs[i])
+                out[i] = searchsorted(cdf, rs[i] * cdf[-1])
             return out
     else:
         def draw_impl(cdf, size=None):
             r = np.random.random()
-            return searchsorted(cdf, r)
+            return searchsorted(cdf, r * cdf[-1])
     return draw_impl
